@@ -94,13 +94,13 @@ let handle () : Stdlib.String.t =
   match next () with
   | "classes" ->
     let m = read_mol () in
-    (match classes m with None -> "none" | Some c -> "ok " ^ String.concat " " (List.map (fun a -> sn a.part) c.atoms))
+    (match classes_fast m with None -> "none" | Some c -> "ok " ^ String.concat " " (List.map (fun a -> sn a.part) c.atoms))
   | "rounds" ->
     let m = read_mol () in
-    (match rounds (refine_fuel m) (partition_by_inv m) with None -> "none" | Some k -> "ok " ^ string_of_int (int_of_nat k))
+    (match rounds_fast (refine_fuel m) (partition_by_inv_fast m) with None -> "none" | Some k -> "ok " ^ string_of_int (int_of_nat k))
   | "canon" ->   (* canon <pairs lam> <mol> *)
     let lam = read_pairs () in let m = read_mol () in
-    (match canonicalize_with lam m with None -> "none" | Some c -> "ok " ^ show_mol c)
+    (match canonicalize_with_fast lam m with None -> "none" | Some c -> "ok " ^ show_mol c)
   | "final" ->
     let m = read_mol () in
     (match final_labels m with None -> "none" | Some o -> "ok " ^ show_pairs o)
@@ -112,7 +112,7 @@ let handle () : Stdlib.String.t =
     (match serialize_tokens m with None -> "none" | Some ts -> "ok " ^ String.concat " " (List.map tok_name ts))
   | "tucan" ->   (* canonicalize with given lam then serialize *)
     let lam = read_pairs () in let m = read_mol () in
-    (match canonicalize_with lam m with None -> "none" | Some c -> (match serialize c with None -> "none" | Some s -> "ok " ^ hex_of_text s))
+    (match canonicalize_with_fast lam m with None -> "none" | Some c -> (match serialize c with None -> "none" | Some s -> "ok " ^ hex_of_text s))
   | "lex" ->
     (match lex_text (text_of_hex (next ())) with None -> "none" | Some ts -> "ok " ^ String.concat " " (List.map tok_name ts))
   | "parse" ->
